@@ -161,7 +161,7 @@ identity on it) is constant in the result of a successful merge. -/
 theorem merge_propagates_const (m other m' : Mapping) (k : Key) (v : Value)
     (hck : k ∈ other.ck) (hl : lookup k other.es = some v) (hs : k.stripPrefix = (k, none))
     (h : m.merge other = .ok m') : k ∈ m'.ck := by
-  have := merge_propagates_const_stripped m other m' k v hck (lookup_mem hl) h
+  have := merge_propagates_const_stripped m other m' k v hck (lookup_mem_entry hl) h
   rw [hs] at this; exact this
 
 /-! ### 5. Constant in the target, written by `other`: the merge fails -/
